@@ -2,6 +2,8 @@
 package c14
 
 import (
+	"time"
+	"context"
 	stdlog "log"
 	"encoding/json"
 	"errors"
@@ -63,7 +65,18 @@ type Case struct {
 	// ViaWrite: events without a level (6) enter through Logger.Write, the io.Writer a standard library
 	// log.Logger or io.Copy writes to (odd events: through such a log.Logger): an event like any other
 	ViaWrite bool `json:"nolevel_via_logger_write,omitempty"`
+	// DeadCtx: odd events carry a Go context that is already cancelled, even ones one whose deadline has
+	// passed (a request that is over while its last lines are logged): events like any other
+	DeadCtx bool `json:"events_carry_dead_contexts,omitempty"`
 }
+
+var cancelledCtx, expiredCtx = func() (context.Context, context.Context) {
+	c, cancel := context.WithCancel(context.Background())
+	cancel()
+	d, cancel2 := context.WithDeadline(context.Background(), time.Unix(1, 0))
+	_ = cancel2
+	return c, d
+}()
 
 // decoyW belongs to a fan-out nobody writes to.
 type decoyW struct{ n int }
@@ -329,7 +342,11 @@ func run(c *Case) (msg string, nontrivial bool) {
 						returned = true
 					}
 				}()
-				l.Panic().Int("event", ei).Msg("m")
+				if c.DeadCtx {
+					l.Panic().Ctx(cancelledCtx).Int("event", ei).Msg("m")
+				} else {
+					l.Panic().Int("event", ei).Msg("m")
+				}
 				return
 			} else if lv == 6 && c.ViaWrite {
 				if ei%2 == 1 {
@@ -337,6 +354,8 @@ func run(c *Case) (msg string, nontrivial bool) {
 				} else {
 					l.Write([]byte(fmt.Sprintf("w%d\n", ei)))
 				}
+			} else if c.DeadCtx {
+				l.WithLevel(zerolog.Level(lv)).Ctx([]context.Context{expiredCtx, cancelledCtx}[ei%2]).Int("event", ei).Msg("m")
 			} else {
 				l.WithLevel(zerolog.Level(lv)).Int("event", ei).Msg("m")
 			}
@@ -600,6 +619,7 @@ func TestRapid(t *testing.T) {
 			}
 		}
 		c.ViaWrite = rapid.Bool().Draw(rt, "viawrite")
+		c.DeadCtx = rapid.IntRange(0, 2).Draw(rt, "deadctx") == 0
 		ne := rapid.IntRange(1, 30).Draw(rt, "nev")
 		for i := 0; i < ne; i++ {
 			c.Levels = append(c.Levels, rapid.SampledFrom([]int{-1, 0, 1, 2, 3, 6, 6, 9, 127, 5, 5}).Draw(rt, "lvl"))
